@@ -77,6 +77,9 @@ func c06PageBufFor(width, n int) int {
 	}
 }
 
+// c06PagesOff counts the pages the writer cut elsewhere than intended.
+var c06PagesOff int
+
 func c06Mix(x uint64) uint64 {
 	x ^= x >> 33
 	x *= 0xff51afd7ed558ccd
@@ -208,6 +211,9 @@ func c06LargeCheck(c *core.Ctx, lc *c06Large, record bool) (ok bool) {
 				if p+1 < oi.NumPages() {
 					n = oi.FirstRowIndex(p+1) - oi.FirstRowIndex(p)
 				}
+				if p >= len(lc.Pages) || int(n) != lc.Pages[p].Len {
+					c06PagesOff++
+				}
 				class := "below the default page size"
 				switch b := n * int64(width); {
 				case b >= 1<<20:
@@ -334,6 +340,51 @@ func c06LargeFiles(c *core.Ctx) {
 					js, _ := json.Marshal(lc)
 					c.Sample(json.RawMessage(js))
 				}
+				fi++
+			}
+		}
+	}
+	c06BatchFiles(c)
+}
+
+// c06BatchFiles: pages of 65..192 values, for every fixed-width column kind
+// (the kinds without a kernel of their own included: INT96, FIXED_LEN_BYTE_ARRAY,
+// DECIMAL on FIXED_LEN_BYTE_ARRAY). The page code that is not a kernel takes
+// the values of a page in batches of 64 (decimalPage.Bounds, the generic value
+// readers), and the files above put the extremes of a page at a few random
+// positions only. Here every position 0..n+62 of pages that end at n = 65 and
+// n = 129 values holds the only smallest value of one page and the only
+// largest value of another (16 pages a file: the disjoint bands of the pages
+// must fit the 10 significant bits of the narrow encodings).
+func c06BatchFiles(c *core.Ctx) {
+	const perFile = 16
+	off := c06PagesOff
+	defer func() {
+		if c06PagesOff != off {
+			c.Note("pages of 65..192 values: %d pages did not come out with the intended number of values", c06PagesOff-off)
+		}
+	}()
+	fi := 0
+	for ci := range c06Cols {
+		name := c06Cols[ci].name
+		width := c06Width(name)
+		if width == 0 {
+			continue
+		}
+		for _, n := range []int{65, 129} {
+			pb := c06PageBufFor(width, n)
+			if pb == 0 {
+				c.Note("no page buffer size ends the pages of %s at %d values", name, n)
+				continue
+			}
+			for start := 0; start < n+63; start += perFile {
+				lc := &c06Large{Col: name, PerPage: n, PageBuf: pb, Seed: c.Rng.Uint64(), Layout: []string{"asc", "desc", "mixed"}[fi%3]}
+				for j := start; j < start+perFile && j < n+63; j++ {
+					pg := c06LargePage{Len: max(n+c.Rng.Intn(64), j+1), MinAt: j}
+					pg.MaxAt = (j + pg.Len/2) % pg.Len
+					lc.Pages = append(lc.Pages, pg)
+				}
+				c06LargeRun(c, lc)
 				fi++
 			}
 		}
